@@ -246,6 +246,31 @@ def explore(tier, seed):
                     inv.fail("C19", "valid-configuration-rejected", f"exit {rc}: {err[:200]!r}", case)
                 elif out != want:
                     inv.fail("C19", "effective-configuration-differs", f"working directory reached through a symbolic link (PWD exported: {bool(pwd)}): the pasfmt.toml above the real directory is not the one in effect", case)
+        # the nearest pasfmt.toml is itself a symbolic link to a regular file: it is the nearest file all the same
+        for depth_below in (0, 1):
+            for bad in (False, True):
+                k += 1
+                base = os.path.join(root, f"l{k}")
+                near = os.path.join(base, "outer", "near")
+                cwd = os.path.join(near, *[f"d{i}" for i in range(depth_below)])
+                os.makedirs(cwd)
+                os.makedirs(os.path.join(base, "store"))
+                open(os.path.join(base, "outer", "pasfmt.toml"), "w").write("wrap_column = 60\nline_ending = \"crlf\"\n")
+                target = os.path.join(base, "store", "shared.toml")
+                open(target, "w").write("wrap_column = 30\nuse_tabs = true\n" + ("no_such_key = 1\n" if bad else ""))
+                os.symlink(target, os.path.join(near, "pasfmt.toml"))
+                want = reference(dict(DEFAULTS, wrap_column=30, use_tabs=True), cache)
+                rc, out, err = cli.run([], stdin=PROBE.encode(), cwd=cwd)
+                inv.case(nontrivial=True)
+                inv.transitions += 1
+                case = {"oracle": "c19", "symlinked_config_file": True, "depth_below_config": depth_below, "unknown_key": bad, "no_confirm": True}
+                if bad:
+                    if rc == 0:
+                        inv.fail("C19", "invalid-setting-accepted", "an unknown key in a pasfmt.toml that is a symbolic link: exit 0", case)
+                elif rc != 0:
+                    inv.fail("C19", "valid-configuration-rejected", f"exit {rc}: {err[:200]!r}", case)
+                elif out != want:
+                    inv.fail("C19", "effective-configuration-differs", "the nearest pasfmt.toml is a symbolic link to a regular file and is not the one in effect", case)
         # a configuration file that cannot be read as text (not UTF-8) is an error in both file sources, never "no file"
         for source in ("file", "config-file"):
             for raw in (b"# caf\xe9\nwrap_column = 30\n", b"wrap_column = 30\n# \xff\xfe\n", b"\xff\xfew\x00r\x00a\x00p\x00"):
